@@ -302,9 +302,8 @@ Section Ops.
 
   (* sow_samples on a crop that already has results (repair D39): the results of the earlier sow belong to other,
      randomly drawn samples and are unlinked first, in the order the directory listing gives them ([ids]); then the
-     ordinary sow (which looks at the directories only, so the same steps before and after the unlinks).  The
-     theorems of Props/C10.v speak about [steps_of]; this prefix is covered by the crash exploration and the
-     correspondence only. *)
+     ordinary sow (which looks at the directories only, so the same steps before and after the unlinks).  Crash
+     safety of this step list: Proofs/CrashProofs.resow_safe, Props/C10.C10_resow_samples_prefix. *)
   Definition resow_samples_steps (st : fs) (ids : list nat) (sw : sweep) (w : nat) : list step :=
     map (fun i => Unlink (Fin (BResult i))) ids ++ sow_steps st sw w.
 
